@@ -171,14 +171,14 @@ def run_shard(desc, acc):
                     cur["rels"].append({"min": q % 2, "max": 1, "children": [nxt]})
                 cur = nxt
             structural(acc, {"root": root, "ctcs": []}, f"deep-chain-{depth}")
-    for j in range(8):
+    for j in range(32):
         if j % n == i:
             r = rand.rng(seed, "c11case", j)
-            base = rand.rand_model(r, r.randint(5, 12), group_kinds=("alternative", "or", "mutex"), multi_rel=False)
+            base = rand.rand_model(r, r.randint(5, 12), group_kinds=("alternative", "or", "mutex"), multi_rel=False, solitary_kinds=("optional", "optional", "mandatory"))
             if not in_fragment(base):
                 continue
             nm = S.feature_names(base)
-            a, b, c = nm[1], nm[2], nm[0]
+            a, b, c = nm[1], nm[2], nm[-1] if len(nm) > 3 else nm[0]   # c: a non-root target when there is one
             twin = a.swapcase()
             if twin in nm or twin == a:
                 continue
@@ -193,7 +193,7 @@ def run_shard(desc, acc):
         if j % n == i:
             r = rand.rng(seed, "c11wide", j)
             k = r.randint(11, 13)
-            used = set()
+            used = {"W"}
             nms = [rand.plain_name(r, used) for _ in range(k)]      # (no numeric suffix pattern: names must not
             kids = [{"name": x, "rels": []} for x in nms]            #  be derivable from one another)
             spec = {"root": {"name": "W", "rels": [{"min": 0, "max": 1, "children": [c]} for c in kids]}, "ctcs": []}
